@@ -103,6 +103,7 @@ Proof.
   assert (Hj : fj s < kj_max p) by (destruct emit; lia).
   assert (Hr : fr s < cs).
   { destruct emit; [lia|]. specialize (HLoc eq_refl). lia. }
+  clear Ec cond.
   rewrite (wf_getl 21) by lia. rewrite (wf_getr 22) by lia. cbn [bind].
   set (I := la + fi s) in *. set (J := ra + fj s) in *.
   set (a := nthZ L I). set (b := nthZ R J).
@@ -110,7 +111,7 @@ Proof.
   assert (HJlt : 0 <= J < len R) by (unfold J; lia).
   assert (Hfront_I : forall j', 0 <= j' < a0 -> nthZ R j' < nthZ L I) by (intros j' Hj'; apply Hfront; lia).
   assert (HWL : wl KLU emit = true) by (unfold wl, v_writes_l; cbn; destruct emit; reflexivity).
-  destruct (a <? b) eqn:E1; [|destruct (b <? a) eqn:E2].
+  destruct (Z.ltb_spec a b) as [E1|E1]; [|destruct (Z.ltb_spec b a) as [E2|E2]].
   - (* left key smaller: unmatched; only possible in a clean state *)
     assert (Hclean : a0 = J).
     { destruct (Z.eq_dec a0 J) as [e|ne]; [exact e|]. exfalso.
